@@ -129,8 +129,19 @@ func H_reset() {
 	if vParam("prim2") != 0 || vParam("prim2set") != 0 {
 		vAssume(int((uint64(nh)+1)%uint64(n2)) == vParam("prim2"))
 	}
-	for _, c := range e.cached {
+	for i, c := range e.cached {
 		vAssume(int(c.vidx) != my2 || e.watchFlag) // nobody forges the node's own payloads
+		if vParam("chit") == 1 {
+			vAssume(c.height == nh+1) // cached for exactly the height being entered
+		}
+		if vParam("cfix") == 1 {
+			// distinct senders: the cached payloads can form a quorum (nested view change at entry)
+			k := i
+			if my2 >= 0 && k >= my2 {
+				k++
+			}
+			vAssume(int(c.vidx) == k)
+		}
 	}
 	ts := vU64("reset.ts")
 	vAssume(ts < 1<<62)
@@ -169,7 +180,15 @@ func H_reset() {
 	vAssert("C05.O4.cache", vpCacheClean(d))
 	if !d.Context.WatchOnly() && !d.blockProcessed {
 		vAssert("C05.O3.timer", e.armed && e.th == d.BlockIndex && e.tv == d.ViewNumber)
+		if e.want("C10") {
+			vAssert("C10.O1.armed", e.armed && e.th == d.BlockIndex && e.tv == d.ViewNumber)
+		}
 	}
+	if d.ViewNumber > 0 {
+		vCover("C05.reset.viewchanged")
+	}
+	// the transaction subscription of the previous height does not survive
+	vAssert("C05.O3.subscription", !d.txSubscriptionOn || e.nSubscribe > 0)
 	// O5: admissible cached payloads of the entered height are taken into account
 	for _, c := range e.cached {
 		if c.height == d.BlockIndex && int(c.vidx) < n2 && !d.blockProcessed && (my2 < 0 || d.CommitPayloads[my2] == nil && d.PreCommitPayloads[my2] == nil) {
@@ -181,7 +200,9 @@ func H_reset() {
 				}
 			case ChangeViewType:
 				if c.newView > d.ViewNumber {
-					vAssert("C05.O5.changeview", d.ChangeViewPayloads[c.vidx] == ConsensusPayload[vhash](c))
+					// stored as a pending request, or already used as evidence for the view entered
+					// during the replay (reset moves the requests to LastChangeViewPayloads)
+					vAssert("C05.O5.changeview", d.ChangeViewPayloads[c.vidx] == ConsensusPayload[vhash](c) || d.LastChangeViewPayloads[c.vidx] == ConsensusPayload[vhash](c))
 				}
 			case PrepareResponseType:
 				if c.view == d.ViewNumber && uint(c.vidx) != d.PrimaryIndex && vUF(kVerifyPResp, uint64(c.Hash())) == 0 && vpProposal(d) == nil &&
@@ -189,7 +210,7 @@ func H_reset() {
 					vAssert("C05.O5.response", d.PreparationPayloads[c.vidx] == ConsensusPayload[vhash](c))
 				}
 			case PreCommitType:
-				if c.view == d.ViewNumber && d.isAntiMEVExtensionEnabled() && vUF(kVerifyPreC, uint64(c.Hash())) == 0 && vpProposal(d) == nil {
+				if c.view == d.ViewNumber && e.amevOn() && vUF(kVerifyPreC, uint64(c.Hash())) == 0 && vpProposal(d) == nil {
 					vAssert("C05.O5.precommit", d.PreCommitPayloads[c.vidx] == ConsensusPayload[vhash](c))
 				}
 			}
